@@ -38,6 +38,11 @@ theorem watchCmp_good (l cur : Int) (done : Bool) :
     ev (envW l cur done) Generated.corr_watchCmp = .bool (decide (l ≤ cur) || done) := by
   cases done <;> by_cases h : l ≤ cur <;> simp [Generated.corr_watchCmp, ev, envW, envOf, vcmp, h]
 
+/-- `Watch` (test and registration) and `set` each run in one exclusive critical section of the object's mutex: they are
+    single steps, as in `Correctable.watch` / `Correctable.set` of the model — no publication can fall between a
+    watcher's test and its registration -/
+theorem atomic_good : Generated.corr_watchAtomic = true ∧ Generated.corr_setAtomic = true := by decide
+
 def envS (wl l : Int) : Env := envOf [("c.watchers[i]", .ref 1), ("c.watchers[i].level", .int wl), ("level", .int l)]
 
 /-- `set` releases exactly the (still registered) watchers at or below the published level -/
@@ -68,6 +73,7 @@ open GorumsV.Tie.C11 GorumsV.C11
 #print axioms preCheck_good
 #print axioms ctxCause_good
 #print axioms watchCmp_good
+#print axioms atomic_good
 #print axioms setCmp_good
 #print axioms replyCase_good
 #print axioms skel_Get_good
